@@ -84,11 +84,14 @@ var programs = []prog{
 	mkProg("sharded", "S:1:R,1,2:2:2:0:0 S:2:R,1,3:3:0:0:0 H:5:0"),
 	mkProg("limit1", "S:1:R,1,2:2:0:0:0 S:2:R,1,3:3:0:0:0 O:lim=1"),
 	mkProg("backoff", "S:1:F,1,11,R,1,2:2:0:0:0 S:2:R,1,3:3:0:0:0 O:bo=50"),
+	mkProg("lagged", "S:1:R,1,2:2:0:0:30 S:2:R,1,3:3:0:0:0 H:5:0"),
+	mkProg("lagged2", "S:1:R,1,2:2:0:0:30 S:2:R,1,3:3:0:0:40 O:inst=2"),
 }
 
 var ctlPrograms = []prog{
 	mkProg("ctl-linear", "S:1:R,1,2:2:0:0:0 C:2:R,1,3:3 S:3:R,1,4:4:0:0:0 H:3:0 H:4:0 H:5:0 D:1 O:retry=100"),
 	mkProg("ctl-timeout", "S:1:R,1,2:2:0:0:0 T:2:100:R,1,3:3:0 C:2:R,1,3:3 D:0"),
+	mkProg("ctl-two-callbacks", "S:1:R,1,2:2:0:0:0 C:2:B,P,1,X,1:3 C:2:R,1,3:3 S:3:R,1,4:4:0:0:0 H:3:0 H:4:0 D:0"),
 	mkProg("ctl-stepctl", "S:1:B,P,1,X,1:2:0:0:0 S:2:R,1,3:3:0:0:0 H:3:0 H:4:0 D:1 O:retry=100,stamp=1"),
 }
 
@@ -214,6 +217,7 @@ func genEngine(p *params, emit func(string, bool)) {
 		genControl(p, prop, emit)
 	case "C04":
 		genRedelivery(p, emit)
+		genStaleReads(p, emit)
 	case "C09":
 		genTriggers(p, emit)
 	case "C12":
@@ -244,6 +248,13 @@ func genFaults(p *params, emit func(string, bool), frac float64) {
 		case "backoff":
 			base = append(base, pr.rounds(3)...)
 			base = append(base, adv(50))
+		case "lagged", "lagged2":
+			base = append(base, pr.rounds(3)...)
+			base = append(base, adv(10))
+			base = append(base, pr.rounds(2)...)
+			base = append(base, adv(20))
+			base = append(base, pr.rounds(3)...)
+			base = append(base, adv(45))
 		}
 		base = append(base, pr.rounds(8)...)
 		rec := append([]string{adv(60)}, pr.rounds(8)...)
@@ -264,6 +275,20 @@ func genFaults(p *params, emit func(string, bool), frac float64) {
 			sample = func() bool { return r.Float64() < f }
 		}
 		singleFaults(pr, base, rec, emit, sample)
+		// the lease of a parked process is revoked at every point of the run (lag waits, back-off, blocked receives)
+		switch pr.name {
+		case "linear", "timeout", "backoff", "lagged", "lagged2", "twoinst":
+			for i := 2; i <= len(base); i++ {
+				for _, u := range pr.units {
+					if u == "o" || (sample != nil && !sample()) {
+						continue
+					}
+					ops := append(append(append([]string{}, base[:i]...), "lose:1/"+u), base[i:]...)
+					ops = append(ops, rec...)
+					emit(scenario(pr, ops), true)
+				}
+			}
+		}
 		for i := 0; i < p.pick(12, 300); i++ {
 			ops := randomFaultRun(r, pr, base, 2+r.Intn(4))
 			ops = append(ops, rec...)
@@ -413,6 +438,44 @@ func genRedelivery(p *params, emit func(string, bool)) {
 	}
 }
 
+// stale reads (a lagging replica answering Lookup with the previous version) at every lookup of every background
+// process, on histories with pauses and resumes, followed by recovery rounds
+func genStaleReads(p *params, emit func(string, bool)) {
+	progs := []prog{
+		mkProg("stale-linear", "S:1:R,1,2:2:0:0:0 S:2:R,1,3:3:0:0:0"),
+		mkProg("stale-pause", "S:1:R,1,2:2:0:0:0 S:2:F,1,12,R,1,3:3:0:1:0 S:3:R,1,4:4:0:0:0 O:retry=-1"),
+		mkProg("stale-steppause", "S:1:R,1,2:2:0:0:0 S:2:F,1,12,R,1,3:3:0:0:0 T:2:50:R,1,3:3:0 O:dpause=1,retry=30,stamp=1"),
+		mkProg("stale-hooks", "S:1:R,1,2:2:0:0:0 S:2:R,1,3:3:0:0:0 H:5:0 H:4:0 D:1"),
+	}
+	for _, pr := range progs {
+		base := []string{"tr:1:0:4", "tr:2:0:7"}
+		base = append(base, pr.rounds(4)...)
+		base = append(base, "ct:1:1", "ct:2:1", "ct:2:2", "ct:2:3", adv(60))
+		base = append(base, pr.rounds(4)...)
+		rec := pr.rounds(4)
+		emit(scenario(pr, base), false)
+		obs := runEngine("eng", strings.Fields(scenario(pr, base))[1:])
+		for _, cp := range callPositions(obs) {
+			// C04 quantifies over stale reads that are monotone per reader: only the first lookup of an operation is
+			// answered by the lagging replica (a later lookup of the same operation is never older than an earlier one)
+			if cp.kind != "LK" || cp.occ != 0 || !strings.HasPrefix(base[cp.op], "st:") {
+				continue
+			}
+			ops := withFault(base, cp.op, fmt.Sprintf("LK.%d.sr", cp.occ))
+			ops = append(ops, rec...)
+			emit(scenario(pr, ops), true)
+			// the same stale read twice in a row (the replica still lags when the event is retried)
+			for j := cp.op + 1; j < len(ops); j++ {
+				if ops[j] == base[cp.op] {
+					ops2 := withFault(ops, j, fmt.Sprintf("LK.%d.sr", cp.occ))
+					emit(scenario(pr, ops2), true)
+					break
+				}
+			}
+		}
+	}
+}
+
 func genTriggers(p *params, emit func(string, bool)) {
 	r := p.rng
 	pr := mkProg("trig", "S:1:R,1,2:2:0:0:0 C:2:R,1,3:3 S:3:R,1,4:4:0:0:0 D:0")
@@ -545,6 +608,14 @@ func genPausing(p *params, emit func(string, bool)) {
 					ops = append(ops, adv(d))
 					ops = append(ops, pr.rounds(2)...)
 				}
+				// later runs of the same foreign IDs (possible once the earlier ones completed): their failures are
+				// counted per run, not per foreign ID
+				ops = append(ops, "tr:1:0:4", "tr:2:0:7", "tr:3:0:6")
+				for k := 0; k < 6; k++ {
+					ops = append(ops, permuteRounds(r, pr, 1)...)
+				}
+				ops = append(ops, adv(2000))
+				ops = append(ops, pr.rounds(3)...)
 				emit(scenario(pr, ops), n >= 2)
 			}
 		}
